@@ -14,7 +14,7 @@
    Both must return a permutation of their argument (hypothesis of the theorems).
    NOT an oracle: Candidate::is_t_wise_covered_by shuffles the candidate's literals with the thread
    RNG before enumerating their t-subsets, but the result is a conjunction over ALL t-subsets and
-   does not depend on the order (Proofs/TwiseOr.v sim_covered_perm); the model enumerates the
+   does not depend on the order (Proofs/TwiseShuffle.v sim_covered_perm); the model enumerates the
    subsets of the unshuffled list.  Iterator::max_by_key returns the LAST maximal element. *)
 From Coq Require Import List ZArith Bool Arith.
 From DD Require Import Model.Circuit Model.Query Model.TIter Model.TwiseCfg.
